@@ -5,7 +5,7 @@ from typing import Optional, TYPE_CHECKING
 
 import wn
 from wn.constants import ADJ, ADJ_SAT
-from wn._util import flatten
+from wn._util import flatten, unique_list
 from wn import _core
 
 if TYPE_CHECKING:
@@ -211,6 +211,15 @@ def max_depth(synset: 'Synset', simulate_root: bool = False) -> int:
     )
 
 
+def _sorted_common(
+        common: set['Synset'], paths: list[list['Synset']]
+) -> list['Synset']:
+    # inferred synsets all compare as equal, and sorted() keeps equal
+    # items in their input order: take that order from the paths
+    # rather than from the set
+    return sorted(unique_list(ss for ss in flatten(paths) if ss in common))
+
+
 def _shortest_hyp_paths(
         synset: 'Synset', other: 'Synset', simulate_root: bool
 ) -> dict[tuple['Synset', int], list['Synset']]:
@@ -242,7 +251,7 @@ def _shortest_hyp_paths(
                         depths[ss] = depth
 
     shortest: dict[tuple[Synset, int], list[Synset]] = {}
-    for ss in sorted(common):
+    for ss in _sorted_common(common, from_self):
         from_self_subpaths, from_other_subpaths = subpaths[ss]
         shortest_from_self = min(from_self_subpaths, key=len)
         # for the other path, we need to reverse it and remove the pivot synset
@@ -318,7 +327,7 @@ def common_hypernyms(
     from_self = _hypernym_paths(synset, simulate_root, True)
     from_other = _hypernym_paths(other, simulate_root, True)
     common = set(flatten(from_self)).intersection(flatten(from_other))
-    return sorted(common)
+    return _sorted_common(common, from_self)
 
 
 def lowest_common_hypernyms(
